@@ -24,7 +24,9 @@ const (
 	uMixed
 )
 
-func (u unit) String() string { return [...]string{"no unit", "byte offset", "character offset", "mixed"}[u] }
+func (u unit) String() string {
+	return [...]string{"no unit", "byte offset", "character offset", "mixed"}[u]
+}
 
 func isStringType(t types.Type) bool {
 	b, ok := t.Underlying().(*types.Basic)
